@@ -261,6 +261,7 @@ def evaluate(fn, extra_env=None, extra_attr=None, index=None):
                         _cache[name] = False
                 return _cache[name]
             ev.is_rotation = _is_rot
+    ev.functions = {k_: v_.node for k_, v_ in fn.module.functions.items() if k_ not in ("_align_points_by_normal",)}
     ev.result_names = {n.value.id for n in ast.walk(fn.node) if isinstance(n, ast.Return) and isinstance(n.value, ast.Name)}
     body = [s for s in fn.node.body if not (isinstance(s, ast.Expr) and isinstance(s.value, ast.Constant))]
     ret = ev.run(body)
